@@ -274,3 +274,24 @@ Proof.
   - intros m E. discriminate E.
   - intros ev line [].
 Qed.
+
+(* a boolean test for legal_line (used to exhibit, on a colliding hasher, a reported line that is NOT legal:
+   the residue HashFaithful cannot be dropped) *)
+Fixpoint legal_lineb (s : state) (l : list N) : bool :=
+  match l with
+  | [] => true
+  | m :: tl => existsb (N.eqb m) (MoveGen.legal_moves s) &&
+               match apply_move s m with Some n => legal_lineb n tl | None => false end
+  end.
+
+Lemma legal_lineb_complete : forall l s, legal_line s l -> legal_lineb s l = true.
+Proof.
+  induction l as [|m tl IH]; intros s H; cbn [legal_lineb]; [reflexivity|].
+  cbn [legal_line] in H. destruct H as (Hin & n & Ha & _ & Hl).
+  apply andb_true_iff. split.
+  - apply existsb_exists. exists m. split; [exact Hin|apply N.eqb_refl].
+  - rewrite Ha. apply IH. exact Hl.
+Qed.
+
+Lemma legal_lineb_false : forall l s, legal_lineb s l = false -> ~ legal_line s l.
+Proof. intros l s H Hl. rewrite (legal_lineb_complete l s Hl) in H. discriminate H. Qed.
